@@ -861,6 +861,20 @@ func (c *Client) logs(ctx context.Context, url string, filter *glf.Filter, bm bl
 	case lresp.Result == nil:
 		return fmt.Errorf("eth_getLogs: missing result")
 	}
+	// The header of toBlock arrives in the same batch as the logs.
+	// When that block's hash is already known (headers or blocks were
+	// fetched before) the two must agree: otherwise the logs were
+	// answered from another chain than the fetched headers, and an
+	// empty log list would go unnoticed.
+	if b, ok := bm[toBlock]; ok {
+		b.Lock()
+		known := append([]byte(nil), b.Header.Hash...)
+		b.Unlock()
+		if len(known) > 0 && !bytes.Equal(known, hresp.Hash) {
+			const tag = "eth_getLogs: block %d: hash mismatch. have: %.4x got: %.4x"
+			return fmt.Errorf(tag, toBlock, known, []byte(hresp.Hash))
+		}
+	}
 	var logsByTx = map[key][]logResult{}
 	for i := range lresp.Result {
 		if lresp.Result[i].Log == nil {
